@@ -12,9 +12,22 @@ import (
 )
 
 // C04: the text returned by Explain is a single rooted tree (verified monitor DC.Spec.Tree.check,
-// theorem check_iff) over: every corpus statement that parses, the grammar's SELECT with every subset
+// theorem check_iff) over: every valid corpus statement, the grammar's SELECT with every subset
 // of clauses, set operations, DDL/ALTER/INSERT/utility statements, and their embedding, layout and
 // multi-statement variants.
+//
+// Domain ("syntactically valid statement"): C04 is not about what Explain prints for text ClickHouse would
+// reject (that Parse accepts such text is C03's/the parser's business).  Validity is decided as follows:
+//   - a corpus statement is valid iff the golden suite itself runs it (corpusStmt.Enabled: the test is not
+//     skipped, the statement is not explain_todo / parse_error / clientError and has a ClickHouse golden);
+//     e.g. the nameless `SHOW CREATE TABLE;` statements of the corpus are clientError cases and are out;
+//   - statements of the hand-written grammar (gen.go, and the lists in this file) are valid by construction;
+//   - variants are built from valid statements by validity-preserving steps only: embedding a SELECT in one of
+//     the contexts of C07, `EXPLAIN AST <statement>`, re-layout of the gaps between tokens, `a; b` scripts.
+// Whatever Parse then rejects is skipped and counted (`not-accepted:*`).
+// Known findings kept reachable on purpose: `SHOW PROCESSLIST` (kind `ShowProcesslist`) and
+// `SHOW ROLES/QUOTAS/USERS/POLICIES/MERGES…` (kind `Show`) in moreUtility: keys tree@unknown-kind@ShowProcesslist,
+// tree@unknown-kind@Show.
 
 func init() {
 	props["C04"] = runC04
@@ -582,7 +595,15 @@ func specialSelects() []string {
 }
 
 func runC04(w *W) {
-	stmts, _ := loadCorpus()
+	all, _ := loadCorpus()
+	// C04 speaks about syntactically valid statements only (see the file header)
+	stmts := make([]corpusStmt, 0, len(all))
+	for _, s := range all {
+		if s.Enabled {
+			stmts = append(stmts, s)
+		}
+	}
+	w.stats.Extra = map[string]any{"corpus_statements": len(all), "corpus_statements_enabled": len(stmts)}
 	run := func(text, desc string) {
 		idx, mine := w.Case()
 		if !mine {
